@@ -177,7 +177,10 @@ K("C05/keys/castling-delta", ["C05"], "zobrist::verif_kani::c05_castling_delta_k
 BD = "board::verif_kani::"
 K("C05/scratch/zobrist-hash", ["C05", "C19"], "board::verif_kani_b::c05_zobrist_hash_is_the_definition", ["RawBoard::zobrist_hash"],
   "for all raw boards (13^64 placements, side, rights, mark, counters): zobrist_hash == side key ^ mark key ^ rights key ^ XOR of piece keys of the occupied squares, over the key tables of this build; neither counter enters",
-  assumes=["C05/keys/tables-read"], timeout=2400, mem_gb=32, mem_est=12)
+  assumes=["C05/keys/tables-read"], timeout=3000, mem_gb=32, mem_est=12, tier="thorough")
+K("C05/scratch/zobrist-hash-shape", ["C05", "C11", "C14"], "board::verif_kani_g::c05_zobrist_hash_fold_shape", ["RawBoard::zobrist_hash"],
+  "for all raw boards, with the three key accessors imported by contract (pure functions; instantiated with the projection onto an arbitrary witness square): zobrist_hash == side key (White only) ^ mark key of the marked square ^ rights key of the rights set ^ piece key of (cell, square) for the occupied witness square - nothing else; neither counter enters (the comparison with the fold over the real key tables for all boards is C05/scratch/zobrist-hash, thorough)",
+  assumes=["C05/keys/tables-read"], timeout=900)
 K("C05/keys/tables-read", ["C05", "C19"], "zobrist::verif_kani_b::c05_key_functions_read_the_tables", ["zobrist::pieces", "zobrist::enpassant", "zobrist::castling"],
   "for all cells, squares and rights sets: the key functions return the corresponding table entries (index in bounds)")
 K("C07/insufficient", ["C07"], BD + "c07_insufficient_material", ["Board::is_insufficient_material"],
@@ -191,7 +194,7 @@ K("C11/try-from/accepts", ["C11", "C02", "C19"], BD + "c11_try_from_accepts_exac
   assumes=ATT, timeout=3000, mem_gb=32, mem_est=12)
 K("C11/try-from/normalised", ["C11", "C02", "C05"], "board::verif_kani_c::c11_try_from_result_normalised_wf_hashed_v3", ["<Board as TryFrom<RawBoard>>::try_from"],
   "for all raw boards accepted: result == input except rights without king/rook at home and a mark without enemy pawn / with an occupied square behind it; derived sets well-formed at every square; stored hash == RawBoard::zobrist_hash of the stored raw board (callee imported by contract: a pure function of cells, side, rights and mark, instantiated with the projection onto an arbitrary witness square)",
-  assumes=ATT + ["C05/scratch/zobrist-hash"], timeout=1800)
+  assumes=ATT + ["C05/scratch/zobrist-hash-shape"], timeout=1800)
 K("C11/spec/idempotent", ["C11"], BD + "c11_normalise_idempotent_and_valid", [],
   "spec-level lemma: ref_normalise is idempotent and preserves ref_valid (so re-validating a validated board changes nothing)", timeout=1800)
 
@@ -212,6 +215,11 @@ for _s, _k in KINDS:
           "the same with the pin / check prefilter (DefaultPrechecker: the decision used by the legal generators, has_legal_moves and SAN): == (mover's king not attacked in ref_apply(position, move)), side %s, kind %s" % (_c, _k),
           assumes=TABLES + ["C15/between/all-pairs", "C15/pawns/advances", "C16/check-queries/w", "C16/check-queries/b", "C06/semilegal/%s/%s" % (_k, _c)], timeout=3600, mem_gb=16, tier=KTIER(_k))
         ISLEGAL += ["C01/legal/is-legal/%s/%s" % (_k, _c), "C01/legal/is-legal-prefilter/%s/%s" % (_k, _c)]
+for _c in ("w", "b"):
+    K("C01/legal/is-legal-prefilter/king-moves/%s" % _c, ["C01", "C07", "C09", "C02"], "legal::verif_kani_c::c01_is_legal_pre_king_%s" % _c,
+      ["legal::Checker::new", "legal::Checker::is_legal", "legal::DefaultPrechecker::new", "legal::DefaultPrechecker::pinned", "legal::DefaultPrechecker::is_legal_pre"],
+      "the prefilter on the plain moves of the KING (side %s): == (king not attacked in ref_apply(position, move)); quick-tier form of is-legal-prefilter/Simple (every piece: thorough), which pins down that the king itself is never shortcut" % _c,
+      assumes=TABLES + ["C15/between/all-pairs", "C16/check-queries/w", "C16/check-queries/b"], timeout=1800, mem_gb=16)
 K("C01/validate-glue", ["C01", "C02", "C09", "C10"], MB + "c01_validate_glue", ["Move::validate", "Move::semi_validate"],
   "with is_semilegal and is_legal_unchecked imported as free booleans: semi_validate is Ok iff semilegal (else NotSemiLegal); validate is Err(NotSemiLegal) if not semilegal, else Ok iff legal, else Err(NotLegal)",
   assumes=ISLEGAL)
@@ -525,23 +533,122 @@ K("C12/san/from-str-4", ["C12", "C09", "C02"], "moves::san::verif_kani_d::c12_sa
   bounded="strings of <= 4 bytes", assumes=["C12/utf8-predicate"], timeout=2400, mem_gb=24, mem_est=6)
 
 
+# ---------------------------------------------------------------------------------------------
+# The quick tier must finish within a quarter of an hour on a fresh tree (16 cores, ~10 verifier
+# jobs at a time, nothing cached): per property it runs the obligations that decide the property's
+# own functions; contracts it imports are discharged by the quick check of the property they belong
+# to.  Heavier variants that add no new code path go to the thorough tier.
+# ---------------------------------------------------------------------------------------------
+import json as _json, re as _re, os
+try:
+    EXPECT = _json.load(open(os.path.join(os.path.dirname(os.path.abspath(__file__)), "expect.json")))
+except Exception:  # noqa
+    EXPECT = {}
+for _o in OBS:
+    _o["expect_s"] = EXPECT.get(_o["id"])
+
+
+def _thorough(rx):
+    for o in OBS:
+        if _re.search(rx, o["id"]):
+            o["tier"] = "thorough"
+
+
+def _quick_for(rx, props):
+    for o in OBS:
+        if _re.search(rx, o["id"]):
+            o["quick_for"] = [p for p in props if p in o["props"]] or list(props)
+
+
+# the prefilter is kind-independent except for en passant: quick keeps en passant (both colours), one
+# pawn kind per colour and the king moves; every-piece and castling forms are thorough
+_thorough(r"^C01/legal/is-legal-prefilter/(Simple|CastlingKingside|CastlingQueenside)/")
+_thorough(r"^C01/legal/is-legal-prefilter/(PawnDouble|PromoteQueen)/w$")
+# queen = do_gen_brq with both ray flags; bishop and rook run the same function with one flag each
+_thorough(r"^(C01/gen|C07/gen-exit)/queen/.*/le3$")
+_thorough(r"^C09/into-move/built/(pawn-move/b|pawn-capture/w)$")
+_quick_for(r"^C01/legal/is-legal/", ["C01"])
+_quick_for(r"^C01/legal/is-legal-prefilter/", ["C01", "C07"])
+_quick_for(r"^C01/gen/", ["C01", "C06"])
+_quick_for(r"^C01/gen/dispatch$", ["C01", "C06", "C07", "C09"])
+_quick_for(r"^C06/semilegal/", ["C06"])
+_quick_for(r"^C06/well-formed$", ["C06", "C10"])
+_quick_for(r"^C02/make-move/", ["C02", "C04"])
+_quick_for(r"^C03/make/", ["C03", "C04"])
+_quick_for(r"^C05/hash-delta/", ["C05"])
+_quick_for(r"^C05/scratch/", ["C05"])
+_quick_for(r"^C07/legal-filter$", ["C07", "C09", "C01"])
+_quick_for(r"^C07/gen-exit/", ["C07"])
+_quick_for(r"^C07/calc-outcome$", ["C07", "C14"])
+_quick_for(r"^C09/", ["C09"])
+_quick_for(r"^C10/into-move/", ["C10"])
+_quick_for(r"^C10/text/", ["C10", "C12"])
+_quick_for(r"^C11/try-from/accepts$", ["C11"])
+_quick_for(r"^C11/try-from/normalised$", ["C11", "C05"])
+_quick_for(r"^C16/", ["C16"])
+_quick_for(r"^C15/", ["C15"])
+_quick_for(r"^C20/", ["C20"])
+_quick_for(r"^C20/text/", ["C20", "C12"])
+_quick_for(r"^C13/chain/verus$", ["C13", "C14", "C02", "C04", "C19"])
+_quick_for(r"^C17/walker/verus$", ["C17", "C04", "C19"])
+_quick_for(r"^C01/validate-glue$", ["C01", "C02"])
+_quick_for(r"^C01/public-glue/", ["C01"])
+_quick_for(r"^C01/public-glue/side-dispatch$", ["C01", "C07", "C09"])
+# C19: for every unsafe site the cheapest quick obligation that executes it (thorough: all of them)
+_c19 = {"C19/unsafe-site-map", "C19/capacity-witnesses"}
+_ids = {o["id"]: o for o in OBS}
+for _key, (_n, _obl, _note) in _um.MAP.items():
+    _cand = [i for i in _obl if i in _ids and _ids[i]["tier"] == "quick"]
+    if _cand:
+        _c19.add(min(_cand, key=lambda i: (EXPECT.get(i, 300), i)))
+for _o in OBS:
+    if "C19" in _o["props"] and _o["tier"] == "quick":
+        _qf = _o.get("quick_for")
+        if _o["id"] in _c19:
+            if _qf is not None and "C19" not in _qf:
+                _o["quick_for"] = _qf + ["C19"]
+        else:
+            _o["quick_for"] = [p for p in (_qf if _qf is not None else _o["props"]) if p != "C19"]
+
+
 def by_id():
     return {o["id"]: o for o in OBS}
 
 
-def for_property(pid, tier):
-    """obligations serving pid (directly), plus the transitive closure of what they assume."""
+def closure(sel, tiers=("quick", "thorough")):
+    """sel plus the transitive closure of what it assumes (imported contracts)"""
     ids = by_id()
-    sel = [o for o in OBS if pid in o["props"] and (tier == "thorough" or o["tier"] == "quick")]
+    sel = list(sel)
     seen = {o["id"] for o in sel}
     todo = list(sel)
     while todo:
         o = todo.pop()
         for a in o["assumes"]:
-            if a not in seen and a in ids:
-                oo = ids[a]
-                if tier == "thorough" or oo["tier"] == "quick":
-                    seen.add(a)
-                    sel.append(oo)
-                    todo.append(oo)
+            if a not in seen and a in ids and ids[a]["tier"] in tiers:
+                seen.add(a)
+                sel.append(ids[a])
+                todo.append(ids[a])
     return sel
+
+
+def for_property(pid, tier):
+    """thorough: every obligation tagged with pid plus the transitive closure of the contracts they
+    import.  quick (the check meant to run on every change, within a quarter of an hour on a fresh
+    tree): the quick-tier obligations tagged with pid - restricted to `quick_for` where an obligation
+    names the properties whose quick check it belongs to - WITHOUT the import closure: an imported
+    contract is discharged by the quick check of the property it belongs to and is listed in the
+    evidence under imported_contracts_not_run_in_this_tier."""
+    if tier == "thorough":
+        return closure([o for o in OBS if pid in o["props"]])
+    return [o for o in OBS if pid in o["props"] and o["tier"] == "quick" and (o.get("quick_for") is None or pid in o["quick_for"])]
+
+
+def imported_not_run(pid, obs):
+    """the import closure of obs minus obs: [(id, properties whose quick check runs it)]"""
+    run = {o["id"] for o in obs}
+    out = []
+    for o in closure(obs):
+        if o["id"] not in run:
+            owners = [p for p in o["props"] if o["tier"] == "quick" and (o.get("quick_for") is None or p in o["quick_for"])]
+            out.append((o["id"], owners or ["thorough tier only"]))
+    return sorted(out)
